@@ -249,8 +249,10 @@ func valStr(v []byte) string {
 // Session: a database under test in lock-step with the model.
 
 type Session struct {
-	MayFail  bool // Put/Delete may return an error (the environment refuses the write): no effect expected
-	Spell    bool // every Open spells DirPath differently (trailing separator, /., /./, //)
+	exact    []byte   // exact-size value slice handed to the call in flight
+	watched  [][]byte // exact-size value slices handed over earlier, now poisoned
+	MayFail  bool     // Put/Delete may return an error (the environment refuses the write): no effect expected
+	Spell    bool     // every Open spells DirPath differently (trailing separator, /., /./, //)
 	nOpen    int
 	NoStates bool // large models: do not hash the mapping after every mutation
 	Dir      string
@@ -381,6 +383,14 @@ func (s *Session) val(v []byte) []byte {
 	if !s.ReuseBuf {
 		return v
 	}
+	if n := len(v); s.Canary && n > 0 && (n&(n-1) == 0 || n%4096 == 0 || s.Step%9 == 4) {
+		// a freshly allocated slice of exactly this length (len == cap), handed over once:
+		// poisoned after the call returns and watched for the rest of the case
+		e := make([]byte, n)
+		copy(e, v)
+		s.exact = e
+		return e
+	}
 	if cap(s.vbuf) < len(v)+16 {
 		s.vbuf = make([]byte, 0, len(v)+64)
 	}
@@ -412,6 +422,17 @@ func (s *Session) scribble() {
 		vb[i] = s.vpoison
 	}
 	s.poisoned = true
+	if s.exact != nil {
+		for i := range s.exact {
+			s.exact[i] = 0xC3
+		}
+		if len(s.watched) >= 40 {
+			s.watched = s.watched[8:]
+		}
+		s.watched = append(s.watched, s.exact)
+		s.exact = nil
+		s.Res.Add("exact_size_value_slices_watched", 1)
+	}
 }
 
 // CheckCanary verifies that nobody wrote into the caller's buffers since the
@@ -432,6 +453,14 @@ func (s *Session) CheckCanary(when string) bool {
 		for i := range vb {
 			if vb[i] != s.vpoison {
 				s.fail("caller-buffer-modified", fmt.Sprintf("%s: the caller's value buffer was written to after the call returned (byte %d of %d is %#x, poison %#x)", when, i, len(vb), vb[i], s.vpoison), "buffer", "value")
+				return false
+			}
+		}
+	}
+	for _, wb := range s.watched {
+		for i := range wb {
+			if wb[i] != 0xC3 {
+				s.fail("caller-buffer-modified", fmt.Sprintf("%s: a value slice of exactly %d bytes (len == cap) passed to an earlier Put was written to after that call had returned (byte %d is %#x)", when, len(wb), i, wb[i]), "buffer", "exact-value")
 				return false
 			}
 		}
@@ -910,8 +939,11 @@ func (g *Gen) VLen(klen int) int {
 		for n < 0 {
 			n += vfmt.Block - vfmt.Header
 		}
-	case c < 85:
+	case c < 82:
 		n = r.Range(1, 3)*vfmt.Block + r.Range(-8, 8)
+	case c < 85:
+		// sizes at which allocators and pools change class
+		n = 1<<uint(r.Range(9, 17)) + []int{0, 0, 0, -1, 1}[r.Intn(5)]
 	case c < 90 && !g.NoOversize && g.Cfg.DataFileSize <= 100000:
 		n = int(g.Cfg.DataFileSize) + r.Range(-40, 3000)
 	default:
